@@ -1,4 +1,4 @@
-// Freezer-level cases of family c24 (Go-oracle only; the Coq model covers one table):
+// Freezer-level cases of family c24 (kind 9; model: coq/Storage/Freezer.v on top of the table model):
 // several tables in one tail group, ModifyAncients / SyncAncient / TruncateTail /
 // TruncateHead histories, and cross-table crash states: every table is taken
 // independently either as it is on disk, or as it was at the last SyncAncient
@@ -81,10 +81,10 @@ func runFreezer(c Sx) Result {
 	}
 	kinds := fzTables[:nt]
 	cfg := map[string]bool{}
-	for i, k := range kinds {
-		cfg[k] = i != 1 // table b is snappy-compressed
+	for _, k := range kinds {
+		cfg[k] = true // all raw: the model's codec is the identity
 	}
-	res := Result{Obs: L(I(9))}
+	res := Result{}
 	seenTag := map[string]bool{}
 	tag := func(s string) {
 		if !seenTag[s] {
@@ -101,24 +101,27 @@ func runFreezer(c Sx) Result {
 	live := filepath.Join(root, "live")
 	f, err := rawdb.VerifNewFreezer(live, maxsz, cfg)
 	if err != nil {
-		return Result{Obs: L(I(9)), Oracle: "fresh freezer does not open: " + err.Error()}
+		return Result{Obs: L(I(9), I(-2)), Oracle: "fresh freezer does not open: " + err.Error()}
 	}
 	appended := make([]map[uint64][]byte, nt)
 	for k := range appended {
 		appended[k] = map[uint64][]byte{}
 	}
+	sizeOf := func(ol SL, k int) int { return AsInt(ol[2+k%(len(ol)-2)]) }
 	snap := readDirFiles(live)
 	syncedHead, tailPre := uint64(0), uint64(0)
+	var codes []Sx
 	for _, o := range AsList(l[3]) {
 		ol := AsList(o)
+		var opErr error
 		switch AsInt(ol[0]) {
 		case 0:
 			n := AsU64(ol[1])
 			head, _ := f.Ancients()
-			f.ModifyAncients(func(op ethdb.AncientWriteOp) error {
+			_, opErr = f.ModifyAncients(func(op ethdb.AncientWriteOp) error {
 				for i := head; i < head+n; i++ {
 					for k, kind := range kinds {
-						b := fzBlob(k, i, AsInt(ol[2+k%(len(ol)-2)]))
+						b := fzBlob(k, i, sizeOf(ol, k))
 						if err := op.AppendRaw(kind, i, b); err != nil {
 							return err
 						}
@@ -128,28 +131,41 @@ func runFreezer(c Sx) Result {
 				return nil
 			})
 		case 1:
-			f.TruncateHead(AsU64(ol[1]))
+			_, opErr = f.TruncateHead(AsU64(ol[1]))
 		case 2:
-			f.TruncateTail("g", AsU64(ol[1]))
+			h0, _ := f.Ancients()
+			if AsU64(ol[1]) > h0 {
+				tag("fast-forward")
+			}
+			_, opErr = f.TruncateTail("g", AsU64(ol[1]))
 			tag("tail")
 		case 3:
-			if f.SyncAncient() == nil {
+			if opErr = f.SyncAncient(); opErr == nil {
 				snap = readDirFiles(live)
 				syncedHead, _ = f.Ancients()
 			}
 		}
+		codes = append(codes, I(errClass(opErr)))
 		if h, _ := f.Ancients(); h < syncedHead {
 			syncedHead = h
 		}
 	}
 	tailPre, _ = f.Tail("g")
+	if tailPre > 0 {
+		tag("offset>0")
+	}
 	cur := readDirFiles(live)
 	var fails []string
+	addFail := func(s string) {
+		if len(fails) < 4 {
+			fails = append(fails, s)
+		}
+	}
+	var crashObs []Sx
 	for ci, cs := range AsList(l[4]) {
 		sel := AsList(cs)
 		cdir := filepath.Join(root, fmt.Sprintf("crash%d", ci))
 		os.MkdirAll(cdir, 0755)
-		skew := false
 		for k, kind := range kinds {
 			s := AsInt(sel[k%len(sel)])
 			ts, tc := tableFiles(snap, kind), tableFiles(cur, kind)
@@ -162,55 +178,100 @@ func runFreezer(c Sx) Result {
 				if s == 2 {
 					files[kind+".meta"] = tc[kind+".meta"]
 				}
-				if len(ts[kind+".ridx"])+len(ts[kind+".cidx"]) != len(tc[kind+".ridx"])+len(tc[kind+".cidx"]) {
-					skew = true
-				}
 			}
 			for n, b := range files {
 				os.WriteFile(filepath.Join(cdir, n), b, 0644)
 			}
 		}
-		if skew {
-			tag("cross-table-skew")
-			res.NonTrivial = true
-		}
 		f2, err := rawdb.VerifNewFreezer(cdir, maxsz, cfg)
 		if err != nil {
-			fails = append(fails, fmt.Sprintf("freezer reopen failed (crash %d): %v", ci, err))
+			cls := int64(2)
+			if strings.Contains(err.Error(), "truncation below tail") {
+				cls = 1
+			}
+			crashObs = append(crashObs, L(I(1), I(cls)))
+			addFail(fmt.Sprintf("freezer reopen failed (crash %d): %v", ci, err))
 			os.RemoveAll(cdir)
 			continue
 		}
 		head, _ := f2.Ancients()
 		tail, _ := f2.Tail("g")
 		if tail > head {
-			fails = append(fails, fmt.Sprintf("freezer tail %d above head %d", tail, head))
+			addFail(fmt.Sprintf("freezer tail %d above head %d", tail, head))
 		}
 		lo := tail
 		if lo > 0 {
 			lo--
 		}
+		var tabObs, retObs []Sx
+		skew := false
 		for k, kind := range kinds {
-			for i := lo; i <= head; i++ {
+			vt := rawdb.VerifFreezerTable(f2, kind)
+			tabObs = append(tabObs, L(U(vt.Items()), U(vt.ItemHidden())))
+			if vt.Items() != head || vt.ItemHidden() != tail {
+				addFail(fmt.Sprintf("table %s is at [%d,%d) but the freezer reports [%d,%d)", kind, vt.ItemHidden(), vt.Items(), tail, head))
+			}
+			var rs []Sx
+			for i := lo; i <= head && head-lo < 100000; i++ {
 				b, err := f2.Ancient(kind, i)
 				in := i >= tail && i < head
+				if err != nil {
+					rs = append(rs, L(I(errClass(err))))
+				} else {
+					rs = append(rs, L(I(0), B(b)))
+				}
 				if in && (err != nil || !bytes.Equal(b, appended[k][i])) {
-					fails = append(fails, fmt.Sprintf("table %s item %d in shared range [%d,%d): err=%v, equal=%v", kind, i, tail, head, err, bytes.Equal(b, appended[k][i])))
+					addFail(fmt.Sprintf("table %s item %d in shared range [%d,%d): err=%v, equal=%v", kind, i, tail, head, err, bytes.Equal(b, appended[k][i])))
 				}
 				if !in && err == nil {
-					fails = append(fails, fmt.Sprintf("table %s item %d readable outside the shared range [%d,%d)", kind, i, tail, head))
+					addFail(fmt.Sprintf("table %s item %d readable outside the shared range [%d,%d)", kind, i, tail, head))
+				}
+			}
+			retObs = append(retObs, SL(rs))
+			_ = skew
+		}
+		crashObs = append(crashObs, L(I(0), U(head), U(tail), SL(tabObs), SL(retObs)))
+		if tailPre < syncedHead && (head < syncedHead || tail > tailPre) {
+			addFail(fmt.Sprintf("synced items [%d,%d) not all present after freezer reopen: [%d,%d)", tailPre, syncedHead, tail, head))
+		}
+		if head < syncedHead+1 || true {
+			// a further append must work on every table of the recovered freezer
+			_, aerr := f2.ModifyAncients(func(op ethdb.AncientWriteOp) error {
+				for k, kind := range kinds {
+					if err := op.AppendRaw(kind, head, fzBlob(k, head, 3)); err != nil {
+						return err
+					}
+				}
+				return nil
+			})
+			if aerr != nil {
+				addFail(fmt.Sprintf("append of item %d after recovery failed: %v", head, aerr))
+			} else {
+				for k, kind := range kinds {
+					if b, err := f2.Ancient(kind, head); err != nil || !bytes.Equal(b, fzBlob(k, head, 3)) {
+						addFail(fmt.Sprintf("table %s: item %d appended after recovery reads %x err=%v", kind, head, b, err))
+					}
 				}
 			}
 		}
-		if tailPre < syncedHead && (head < syncedHead || tail > tailPre) {
-			fails = append(fails, fmt.Sprintf("synced items [%d,%d) not all present after freezer reopen: [%d,%d)", tailPre, syncedHead, tail, head))
-		}
 		f2.Close()
 		os.RemoveAll(cdir)
-		if len(fails) > 3 {
-			break
+	}
+	// non-trivial: the tables hold different numbers of index entries on disk at the crash
+	first := -1
+	for _, kind := range kinds {
+		n := len(cur[kind+".ridx"])
+		if ms, ok := readMeta(cur[kind+".meta"]); ok && int(ms.Offset) < n {
+			res.NonTrivial = true
+			tag("unflushed-index")
 		}
+		if first >= 0 && n != first {
+			tag("index-skew")
+		}
+		first = n
 	}
 	f.Close()
+	res.Obs = L(I(9), SL(codes), SL(crashObs))
 	if len(fails) > 0 {
 		res.Oracle = fails[0]
 	}
@@ -220,24 +281,53 @@ func runFreezer(c Sx) Result {
 func genFreezerCase(r *Rng) Sx {
 	maxsz := r.Range(60, 200)
 	nt := r.Range(2, 3)
+	// per-table item-size profile: some tables get items close to the file limit (they roll over,
+	// and every roll-over flushes that table), others tiny items (they stay unflushed)
+	profile := make([]int, nt)
+	for t := range profile {
+		switch r.Intn(3) {
+		case 0:
+			profile[t] = r.Range(1, 4)
+		case 1:
+			profile[t] = r.Range(maxsz/3, maxsz/2+5)
+		default:
+			profile[t] = r.Range(1, maxsz/2)
+		}
+	}
 	var ops []Sx
 	items, tail := 0, 0
-	for i, n := 0, r.Range(3, 12); i < n; i++ {
-		switch k := r.Intn(100); {
-		case k < 50 || items == 0:
-			cnt := r.Range(1, 6)
-			op := SL{I(0), I(int64(cnt))}
-			for t := 0; t < nt; t++ {
-				op = append(op, I(int64(r.Range(1, maxsz/2))))
+	appendOp := func() {
+		cnt := r.Range(1, 8)
+		op := SL{I(0), I(int64(cnt))}
+		for t := 0; t < nt; t++ {
+			sz := profile[t]
+			if r.Chance(1, 4) {
+				sz = r.Range(1, maxsz/2)
 			}
-			items += cnt
-			ops = append(ops, op)
-		case k < 65:
+			op = append(op, I(int64(sz)))
+		}
+		items += cnt
+		ops = append(ops, op)
+	}
+	if r.Chance(1, 3) { // start the empty freezer at a non-zero offset
+		tail = r.Range(1, 300)
+		items = tail
+		ops = append(ops, L(I(2), I(int64(tail))))
+	}
+	for i, n := 0, r.Range(2, 12); i < n; i++ {
+		switch k := r.Intn(100); {
+		case k < 50 || items == tail && k < 70:
+			appendOp()
+		case k < 64:
 			ops = append(ops, L(I(3)))
-		case k < 80 && items > tail:
+		case k < 78 && items > tail:
 			n := r.Range(tail, items)
 			items = n
 			ops = append(ops, L(I(1), I(int64(n))))
+		case k < 84: // fast-forward: a tail beyond the head empties every table at the new position
+			tail = items + r.Range(0, 20)
+			items = tail
+			ops = append(ops, L(I(2), I(int64(tail))))
 		default:
 			if items > tail {
 				tail = r.Range(tail, items)
@@ -245,8 +335,14 @@ func genFreezerCase(r *Rng) Sx {
 			ops = append(ops, L(I(2), I(int64(tail))))
 		}
 	}
+	if r.Chance(2, 3) { // end with unsynced appends
+		for k := r.Range(1, 2); k > 0; k-- {
+			appendOp()
+		}
+	}
 	var crashes []Sx
-	for i := 0; i < 9; i++ {
+	crashes = append(crashes, L(I(0)))
+	for i := 0; i < 8; i++ {
 		crashes = append(crashes, L(I(int64(r.Intn(3))), I(int64(r.Intn(3))), I(int64(r.Intn(3)))))
 	}
 	return L(I(9), I(int64(maxsz)), I(int64(nt)), SL(ops), SL(crashes))
